@@ -95,20 +95,27 @@ def pat(src: str) -> Term:
     return _CACHE[src]
 
 
+class Match(dict):
+    """Unifier; truthy even when the pattern has no variables."""
+
+    def __bool__(self) -> bool:
+        return True
+
+
 def _is_var(p) -> bool:
     return isinstance(p, tuple) and len(p) == 2 and p[0] == "?"
 
 
 def pmatch_all(p, t, env: Optional[dict] = None) -> Iterator[dict]:
     """All unifiers of pattern `p` with term `t` extending `env`."""
-    env = {} if env is None else env
+    env = Match() if env is None else env
     if _is_var(p):
         name = p[1]
         if name in env:
             if env[name] == t:
                 yield env
             return
-        e2 = dict(env)
+        e2 = Match(env)
         e2[name] = t
         yield e2
         return
